@@ -73,8 +73,14 @@ def one(M, rec, rng, g, desc, pars, st):
     rng.shuffle(keys)
     opts = CC.random_opts(rng, 0.15) if rng.random() < 0.3 else {}
     ops = D.random_ops(desc, rng)
+    T2 = None
+    if rng.random() < 0.25 and not any(k_ == ("#", "T") for k_ in keys):
+        T2 = rng.choice([t for t in (5.0, 7.5, 10.0, 15.0, 20.0) if abs(t / 3600.0 - pars["T"]) > 1e-9]) / 3600.0
     try:
-        sym = CC.CompileCase(M, rng, desc, pars, st, keys, opts, ops=ops, stacked=(rng.random() < 0.3))
+        sym = CC.CompileCase(M, rng, desc, pars, st, keys, opts, ops=ops, stacked=(rng.random() < 0.3), restep_T=T2)
+        if T2 is not None:
+            pars = dict(pars, T=T2)  # the numeric twin is built directly at the last sampling time
+            rec.count("cases_stepped_again_with_another_sampling_time")
         if sym.stacked:
             rec.count("cases_with_one_stacked_vector_parameter")
     except Exception as e:
